@@ -24,6 +24,7 @@ CONSTANTS
  DevNoFlushOnAck = TRUE
  DevTolerateLostIdx = FALSE
  DevRestoreCountsOrphan = FALSE
+ DevReadFloorSegment = FALSE
 INIT Init
 NEXT Next
 VIEW View
